@@ -85,7 +85,10 @@ func startGRPC() {
 		grpcSrv = grpc.NewServer()
 		webserverv1.RegisterWebserverServiceServer(grpcSrv, grpcserver.NewServer(grpcSwitch))
 		go grpcSrv.Serve(lis)
-		cc, err := grpc.NewClient(lis.Addr().String(), grpc.WithTransportCredentials(insecure.NewCredentials()))
+		cc, err := grpc.NewClient(lis.Addr().String(), grpc.WithTransportCredentials(insecure.NewCredentials()),
+			// the client's receive limit is the client's business (gRPC's default is 4 MiB); the property is about what the
+			// server sends, so the test client takes anything
+			grpc.WithDefaultCallOptions(grpc.MaxCallRecvMsgSize(128<<20)))
 		if err != nil {
 			panic(err)
 		}
